@@ -44,6 +44,7 @@ uint32_t shp_hweight32_table(uint32_t w) { return 0; }
 uint32_t shp_hweight8_table(uint8_t w) { return 0; }
 uint32_t shp_hweight_array(uint32_t *a, int32_t size_bits) { return 0; }
 int shp_solve(void *d, void **const_tab, void **var_tab, uint32_t L) { return 0; }
+int shp_solve_reuse(void *d, void **const_tab, void **var_tab, uint32_t L) { return 0; }
 #else
 #include "lib_common/of_openfec_api.h"
 #include "lib_common/linear_binary_codes_utils/of_linear_binary_code.h"
@@ -165,6 +166,35 @@ uint32_t shp_hweight32_naive(uint32_t w) { return of_hweight32_naive(w); }
 uint32_t shp_hweight32_table(uint32_t w) { return of_hweight32_table(w); }
 uint32_t shp_hweight8_table(uint8_t w) { return of_hweight8_table(w); }
 uint32_t shp_hweight_array(uint32_t *a, int32_t size_bits) { return of_hweight_array(a, size_bits); }
+
+/* same solver on ONE control block kept across calls (its scratch fields are the solver's own business) */
+int shp_solve_reuse(void *d, void **const_tab, void **var_tab, uint32_t L)
+{
+#ifdef ML_DECODING
+	static of_linear_binary_code_cb_t cb;
+	static int init = 0;
+	of_mod2dense *m = (of_mod2dense *) d;
+	int st;
+	if (!init) {
+		memset(&cb, 0, sizeof(cb));
+		cb.tmp_tab_symbols = (void **) malloc(sizeof(void *) * 4096);
+#ifdef OF_DEBUG
+		cb.stats_xor = (of_symbol_stats_op_t *) calloc(1, sizeof(of_symbol_stats_op_t));
+#endif
+		init = 1;
+	}
+	cb.encoding_symbol_length = L;
+	cb.nb_source_symbols = of_mod2dense_cols(m);
+	cb.nb_repair_symbols = of_mod2dense_rows(m);
+	cb.nb_total_symbols = cb.nb_source_symbols + cb.nb_repair_symbols;
+	IN;
+	st = (int) of_linear_binary_code_solve_dense_system(&cb, m, const_tab, var_tab);
+	OUT;
+	return st;
+#else
+	return 3;
+#endif
+}
 
 int shp_solve(void *d, void **const_tab, void **var_tab, uint32_t L)
 {
